@@ -16,11 +16,13 @@
       [signed_content a c]: [c] divides every coefficient, every common divisor divides [c],
          and [c > 0 <-> lc a > 0].
 
-    NOT proved (no theorem; checked by the independent oracle on every explored input): irreducibility
-    and pairwise distinctness of the returned factors, that the recombination finds every factor
-    (Mignotte bound + uniqueness of Hensel lifts), [e_i >= 1], positivity/primitivity of the *last*
-    returned factor without the run-computed condition of [factors_primitive_positive_partial],
-    termination of the prime search and (for all draw streams) of the modular factorisation. *)
+    Status after the third wave (sections "Third wave" at the end of this file): positivity and primitivity
+    of all returned polynomials, [e_i >= 1] and exactness of the multiplicities, pairwise distinctness, the
+    correctness of the square-free part, the unreachability of both [expect]s are proved for all inputs [P];
+    irreducibility of the returned polynomials and the product clause [a = c * prod f_i^e_i] are proved for
+    every completed run whose prime search returned a prime below 2^31 [C] (Landau-Mignotte bound, uniqueness
+    of Hensel lifts, completeness of the subset search). NOT proved: the same without that run-computed
+    condition; termination of the prime search and (for all draw streams) of the modular factorisation. *)
 From RNT.Model Require Import Base Poly PolyZFactor.
 From mathcomp Require Import all_ssreflect ssralg poly.
 From mathcomp Require Import ssrZ.
@@ -191,3 +193,285 @@ Example ex_swinnerton_dyer :
 Proof.
 by exists [:: 13; 200; 7; 99; 45; 1; 250; 33; 17; 88; 91; 4; 5; 6; 7; 8]%Z; vm_compute.
 Qed.
+
+(** * Third wave: what a completed run guarantees without any condition on the run.
+
+    Built on C10 ([resultant_gcd] is total, returns a divisor in Z[x] associated over Q to the gcd, with
+    positive leading coefficient), C09 ([div_exact] is exact division in Z[x]) and Gauss's lemma.
+    Divisibility [u %| v], [coprimep], [u %= v], [gcdp], [separable_poly p] ([coprimep p p^`()]) and
+    [irreducible_poly] are MathComp's notions for polynomials over the integral domain Z: divisibility
+    up to non-zero constants, i.e. in Q[x]. This section supersedes the header of this file: positivity and
+    primitivity of *all* returned polynomials, [e_i >= 1], non-constancy, pairwise coprimality and
+    distinctness, exactness of the multiplicities and the correctness of the square-free part are now proved
+    for all inputs; the product clause is proved for square-free inputs and, in general, under the hypothesis
+    that the returned polynomials are irreducible. Irreducibility itself (completeness of the recombination:
+    Landau-Mignotte bound and uniqueness of Hensel lifts) is treated in the two continuation sections below.
+    NOT proved: termination of the prime search and of the modular factorisation. *)
+From mathcomp Require Import polydiv separable.
+From RNT.Refine Require Import PolyZFactorW3Sqf PolyZFactorW3Run PolyZFactorW3Top PolyZFactorW3Exact.
+
+(** ** [P] factors_primitive_positive: every returned polynomial, the last one included, is stored
+    normalised, is primitive and has a positive leading coefficient (no condition on the run:
+    [resultant_gcd] returns a polynomial with positive leading coefficient, C10 [gcd_spec]). *)
+Theorem factors_primitive_positive md (a : seq Z) r c l cof r' : canonZ a ->
+  factorize_full md a r = Done (c, l, cof, r') -> forall fe, fe \in l -> prim_pos fe.1.
+Proof. exact (@PolyZFactorW3Exact.factors_primitive_positive md a r c l cof r'). Qed.
+
+(** ** [P] squarefree_part_spec: for a canonical non-constant input with primitive part [pp],
+    [resultant_gcd pp pp'] returns [g], the division [div_exact pp g] succeeds -- so the
+    [expect("This division cannot fail")] of mod.rs:24 never fires: the run *is* the rest of the pipeline
+    applied to the quotient [q] --, [pp = q * g] with [g] associated over Q to [gcd(pp, pp')], [q] is
+    square-free over Q, and every divisor of [pp] coprime to [q] is a non-zero constant (every irreducible
+    factor of [pp] divides [q]). *)
+Theorem squarefree_part_spec md (a : seq Z) r : canonZ a -> (1 < size a)%N ->
+  let pp := (cont_pp a).2 in
+  exists g q : seq Z,
+    [/\ (Resultant.resultant_gcd pp (pdiff opsZ pp)).2 = Done g /\ div_exact pp g = Some q,
+        Poly pp = Poly q * Poly g /\ Poly g %= gcdp (Poly pp) (Poly pp)^`(),
+        separable_poly (Poly q),
+        forall u : {poly Z}, u %| Poly pp -> coprimep u (Poly q) -> size u = 1%N
+      & factorize_full md a r =
+        (do '(factors, r1) <- get_factors_of_squarefree md q r;
+         do '(cof, result) <- extract_all factors pp [::];
+         Done ((cont_pp a).1, result, cof, r1))].
+Proof. exact (@PolyZFactorW3Exact.squarefree_part_spec md a r). Qed.
+(* (x+1)^7: the gcd with the derivative is (x+1)^6, the square-free part is x+1 *)
+Example ex_sqfree_part :
+  let a := [:: 1; 7; 21; 35; 35; 21; 7; 1]%Z in
+  [/\ canonZ a, (1 < size a)%N,
+      (Resultant.resultant_gcd (cont_pp a).2 (pdiff opsZ (cont_pp a).2)).2 = Done [:: 1; 6; 15; 20; 15; 6; 1]%Z
+    & div_exact (cont_pp a).2 [:: 1; 6; 15; 20; 15; 6; 1]%Z = Some [:: 1; 1]%Z].
+Proof. by vm_compute. Qed.
+(* the abstract statement (Refine/PolyZFactorW3Sqf.v), over any integral domain of characteristic 0 *)
+Theorem squarefree_part_char0 (R : idomainType) :
+  (forall n, (n%:R == 0 :> R) = (n == 0)%N) ->
+  forall p q g u : {poly R}, p != 0 -> p = q * g -> g %= gcdp p p^`() ->
+  separable_poly q /\ (u %| p -> coprimep u q -> size u = 1%N).
+Proof. exact (@PolyZFactorW3Sqf.squarefree_part_char0 R). Qed.
+
+(** ** [P] multiplicities_positive: every returned polynomial is non-constant and its exponent is at
+    least 1 (it divides the square-free part, hence the primitive part, and is coprime to the polynomials
+    extracted before it);
+    multiplicities_exact: [e_i] is the exact multiplicity of [f_i] in the primitive part and in the input:
+    [f_i^k] divides it (over Q; equivalently in Z[x], [f_i] being primitive) iff [k <= e_i]. *)
+Theorem multiplicities_positive md (a : seq Z) r c l cof r' : canonZ a ->
+  factorize_full md a r = Done (c, l, cof, r') ->
+  forall fe, fe \in l -> (1 <= fe.2)%Z /\ (1 < size fe.1)%N.
+Proof. exact (@PolyZFactorW3Exact.multiplicities_positive md a r c l cof r'). Qed.
+Theorem multiplicities_exact md (a : seq Z) r c l cof r' f e : canonZ a ->
+  factorize_full md a r = Done (c, l, cof, r') -> (f, e) \in l ->
+  forall k : nat, (Poly f ^+ k %| Poly (cont_pp a).2) = (k <= Z.to_nat e)%N.
+Proof. exact (@factorize_full_exact_mult md a r c l cof r' f e). Qed.
+Theorem multiplicities_exact_input md (a : seq Z) r c l cof r' f e : canonZ a ->
+  factorize_full md a r = Done (c, l, cof, r') -> (f, e) \in l ->
+  forall k : nat, (Poly f ^+ k %| Poly a) = (k <= Z.to_nat e)%N.
+Proof. exact (@factorize_full_exact_mult_input md a r c l cof r' f e). Qed.
+
+(** ** [P] factors_pairwise_distinct: the returned polynomials are pairwise distinct, and any two of them
+    are coprime over Q (they are distinct non-constant divisors of the square-free part). *)
+Theorem factors_pairwise_distinct md (a : seq Z) r c l cof r' : canonZ a ->
+  factorize_full md a r = Done (c, l, cof, r') ->
+  uniq (map fst l) /\
+  forall fe fe', fe \in l -> fe' \in l -> fe.1 <> fe'.1 -> coprimep (Poly fe.1) (Poly fe'.1).
+Proof. exact (@PolyZFactorW3Exact.factors_pairwise_distinct md a r c l cof r'). Qed.
+
+(** ** [P] product_up_to_cofactor: for a non-constant canonical input, [a = c * cof * prod f_i^e_i] where
+    the ghost cofactor [cof] is primitive with positive leading coefficient, divides the gcd [g] of the
+    primitive part and its derivative computed by the run, with [g = cof * prod f_i^(e_i - 1)]
+    ([fprod_pred l]), and every divisor of [cof] coprime to [prod f_i] is a non-zero constant (every
+    irreducible factor of [cof] divides some [f_i], while no [f_i] divides [cof]: [factors_divide]). *)
+Theorem product_up_to_cofactor md (a : seq Z) r c l cof r' : canonZ a -> (1 < size a)%N ->
+  factorize_full md a r = Done (c, l, cof, r') ->
+  let pp := (cont_pp a).2 in
+  [/\ prim_pos cof, Poly a = c *: (Poly cof * fprod l),
+      exists g, [/\ (Resultant.resultant_gcd pp (pdiff opsZ pp)).2 = Done g,
+                    Poly g %= gcdp (Poly pp) (Poly pp)^`() & Poly g = Poly cof * fprod_pred l]
+    & forall u : {poly Z}, u %| Poly cof -> coprimep u (lprod (map fst l)) -> size u = 1%N].
+Proof. exact (@factorize_full_cofactor md a r c l cof r'). Qed.
+
+(** ** [P] factorize_product_squarefree: the product clause, unconditionally, for every input without
+    repeated factor ([coprimep a a'], a hypothesis on the input, not on the run): the cofactor is 1, every
+    exponent is 1 and [a = c * prod f_i]. *)
+Theorem factorize_product_squarefree md (a : seq Z) r c l cof r' : canonZ a ->
+  separable_poly (Poly a) ->
+  factorize_full md a r = Done (c, l, cof, r') ->
+  [/\ cof = [:: 1%Z], forall fe, fe \in l -> fe.2 = 1%Z & Poly a = c *: fprod l].
+Proof. exact (@factorize_full_squarefree md a r c l cof r'). Qed.
+(* x^4 - 10x^2 + 1 and -6(x^2+x+1)(2x^2+1) satisfy the hypothesis (the gcd computed by the model is 1) *)
+Example ex_separable_hyp :
+  separable_poly (Poly [:: 1; 0; -10; 0; 1]%Z) /\ separable_poly (Poly [:: -6; -6; -18; -12; -12]%Z).
+Proof. by split; apply: separable_of_gcd1 => //; vm_compute. Qed.
+
+(** ** [C] factorize_product_of_irreducible: the product clause for all inputs, conditional on the
+    irreducibility over Q of the returned polynomials (the clause that is NOT proved: it needs the
+    completeness of the recombination). Full statement (not proved):
+      forall md a r c l cof r', canonZ a -> factorize_full md a r = Done (c, l, cof, r') ->
+        cof = [:: 1] /\ Poly a = c *: fprod l.
+    Without irreducibility the cofactor need not be 1 in principle: were the recombination to return
+    u*v for pp = u^2 v, the run would end with ([(u v, 1)], cof = u). *)
+Theorem factorize_product_of_irreducible md (a : seq Z) r c l cof r' : canonZ a ->
+  factorize_full md a r = Done (c, l, cof, r') ->
+  (forall fe, fe \in l -> irreducible_poly (Poly fe.1)) ->
+  cof = [:: 1%Z] /\ Poly a = c *: fprod l.
+Proof. exact (@factorize_full_irreducible_product md a r c l cof r'). Qed.
+(* (x+1)^7: the only returned polynomial x+1 is irreducible *)
+Example ex_irreducible_hyp :
+  factorize_full Checked [:: 1; 7; 21; 35; 35; 21; 7; 1]%Z (rng_of [::])
+  = Done (1%Z, [:: ([:: 1; 1], 7)]%Z, [:: 1%Z], rng_of [::])
+  /\ forall fe, fe \in [:: ([:: 1; 1], 7)]%Z -> irreducible_poly (Poly fe.1).
+Proof. by split; [vm_compute | move=> fe; rewrite inE => /eqP ->; apply: linear_irreducible]. Qed.
+
+(** * Third wave, continued: the recombination.
+
+    Vocabulary (Refine/PolyZmod.v, FmpField.v, PolyZFactorW3Subset.v, PolyZFactorW3Irred.v, PolyZFactorW3Final.v):
+    [eqpm m a b]: the integer polynomials [a], [b] are congruent modulo the integer [m];
+    [redp n a]: the reduction of [a] in ['F_n[x]] ([n] a prime natural number);
+    [lsprod ls]: the product of a list of polynomials; [lifted_ok n ls]: the polynomials of [ls] are monic,
+    irreducible modulo [n] and pairwise coprime modulo [n];
+    [prec_ok pe q]: for every factorisation [q = u v] in Z[x] and every [i], [2 |lc(v) u_i| < pe];
+    [run_precision_ok md q]: for the bound, the prime [p] (and its machine-word copy [pu]) and the modulus
+    [pe = p^e] that the run computes on [q]: [p = pu] (the prime was not wrapped by [as i32]) and [prec_ok pe q].
+    [prec_ok] for the modulus chosen by the code is what the Landau-Mignotte bound guarantees; it appears as a
+    hypothesis of the [C] theorems of this section and is discharged in the next section
+    ([coefficient_bound_sufficient]). *)
+From mathcomp Require Import zmodp.
+From RNT.Refine Require Import PolyZmod FmpField.
+From RNT.Refine Require Import PolyZFactorW3Unwrap PolyZFactorW3Hensel PolyZFactorW3Subset PolyZFactorW3Irred PolyZFactorW3Final.
+
+(** ** [P] the [expect("This division will always succeed")] of the recombination (mod.rs:109) never fires:
+    when [prod] divides [lc(a) a], the primitive part of [prod] divides [a] (Gauss's lemma). Together with
+    [squarefree_part_spec]: neither [expect] of [poly_z::factorize] can fire. *)
+Theorem recombination_expect_unreachable fuel md pe pe2 d (a : seq Z) lifted res : canonZ a -> a != [::] ->
+  recombine fuel md pe pe2 d a lifted res <> Panic PUnwrap.
+Proof. exact (@recombine_no_unwrap fuel md pe pe2 d a lifted res). Qed.
+Theorem subset_test_expect_unreachable md (a : seq Z) lca pe pe2 lifted idx : canonZ a -> lca != 0 ->
+  try_subset md a lca pe pe2 lifted idx <> Panic PUnwrap.
+Proof. exact (@try_subset_no_unwrap md a lca pe pe2 lifted idx). Qed.
+
+(** ** [P] uniqueness of Hensel lifts in Z[x]: if [A B = A' B'] modulo [p^e], [A = A'] and [B = B'] modulo [p],
+    with equal degrees and equal leading coefficients not divisible by [p], and [A], [B] coprime modulo [p],
+    then [A = A'] and [B = B'] modulo [p^e]. *)
+Theorem hensel_lift_unique (n : nat) : prime n -> forall e (A B A' B' : {poly Z}), (0 < e)%N ->
+  eqpm (Z.of_nat n ^+ e) (A * B) (A' * B') -> eqpm (Z.of_nat n) A A' -> eqpm (Z.of_nat n) B B' ->
+  lead_coef A = lead_coef A' -> size A = size A' ->
+  lead_coef B = lead_coef B' -> size B = size B' ->
+  ~ (Z.of_nat n | lead_coef A)%ZZ -> ~ (Z.of_nat n | lead_coef B)%ZZ -> coprimep (redp n A) (redp n B) ->
+  eqpm (Z.of_nat n ^+ e) A A' /\ eqpm (Z.of_nat n ^+ e) B B'.
+Proof. exact (@hensel_unique n). Qed.
+
+(** ** [P] every factorisation in Z[x] splits the lifted factors: if [a = lc(a) prod ls] modulo [p^e] with
+    [ls] monic, irreducible and pairwise coprime modulo [p], [p] not dividing [lc(a)], and [a = u v] in Z[x],
+    then [u = lc(u) prod (mask m ls)] and [v = lc(v) prod (mask (~m) ls)] modulo [p^e] for a bit mask [m]. *)
+Theorem true_factors_split_lifted (n : nat) : prime n -> forall e (a u v : {poly Z}) ls, (0 < e)%N ->
+  lifted_ok n ls -> ~ (Z.of_nat n | lead_coef a)%ZZ ->
+  eqpm (Z.of_nat n ^+ e) a (lead_coef a *: lsprod ls) -> a = u * v ->
+  exists m : bitseq,
+    [/\ size m = size ls, eqpm (Z.of_nat n ^+ e) u (lead_coef u *: lsprod (mask m ls))
+      & eqpm (Z.of_nat n ^+ e) v (lead_coef v *: lsprod (mask (map negb m) ls))].
+Proof. exact (@subset_structure n). Qed.
+
+(** ** [C] squarefree_factors_irreducible_partial: [get_factors_of_squarefree] returns polynomials irreducible
+    over Q, conditional on values the run computes: the prime found is its own machine-word copy, and the
+    modulus [pe] satisfies [prec_ok]. (C08: the modular factors are monic, irreducible, pairwise distinct and
+    multiply to the input; C11: the lifted factors are congruent to them and multiply to the input modulo p^e;
+    [true_factors_split_lifted]; the subsets are tried by increasing size, Props [subset_enumeration_is_mask_order].)
+    The hypothesis [prec_ok pe q] is removed in the next section ([squarefree_factors_irreducible_flag]). *)
+Theorem squarefree_factors_irreducible_partial md (q : seq Z) r fs r' bound p pe e :
+  canonZ q -> (1 < size q)%N -> md = Checked \/ (Z.of_nat (length q) <= two64)%ZZ ->
+  coef_bound md q = Done bound ->
+  find_prime (prime_fuel q) q 2 = Done (p, p) ->
+  exp_loop (exp_fuel bound) 1 p bound 0 = Done (pe, e) ->
+  prec_ok pe q ->
+  get_factors_of_squarefree md q r = Done (fs, r') ->
+  forall f, f \in fs -> irreducible_poly (Poly f).
+Proof. exact (@get_factors_irreducible md q r fs r' bound p pe e). Qed.
+
+(** ** [C] factors_irreducible_partial: every polynomial returned by [factorize_full] is irreducible over Q,
+    conditional on [run_precision_ok] for the square-free part of the run.
+    factorize_complete_partial: under the same condition the whole property holds: the cofactor is 1,
+    [a = c * prod f_i^e_i], and (unconditionally, above) the [f_i] are primitive, positive, non-constant,
+    pairwise distinct, with exact multiplicities [e_i >= 1] and [c] the signed content.
+    The precision part of the hypothesis is removed in the next section ([factorize_correct_flag]); the full
+    statement without the condition [p = pu] is not proved. *)
+Theorem factors_irreducible_partial md (a : seq Z) r c l cof r' : canonZ a ->
+  md = Checked \/ (Z.of_nat (length a) <= two64)%ZZ ->
+  factorize_full md a r = Done (c, l, cof, r') ->
+  (forall g q, (Resultant.resultant_gcd (cont_pp a).2 (pdiff opsZ (cont_pp a).2)).2 = Done g ->
+               div_exact (cont_pp a).2 g = Some q -> run_precision_ok md q) ->
+  forall fe, fe \in l -> irreducible_poly (Poly fe.1).
+Proof. exact (@factorize_full_irreducible md a r c l cof r'). Qed.
+Theorem factorize_complete_partial md (a : seq Z) r c l cof r' : canonZ a ->
+  md = Checked \/ (Z.of_nat (length a) <= two64)%ZZ ->
+  factorize_full md a r = Done (c, l, cof, r') ->
+  (forall g q, (Resultant.resultant_gcd (cont_pp a).2 (pdiff opsZ (cont_pp a).2)).2 = Done g ->
+               div_exact (cont_pp a).2 g = Some q -> run_precision_ok md q) ->
+  [/\ cof = [:: 1%ZZ], Poly a = c *: fprod l
+    & forall fe, fe \in l -> irreducible_poly (Poly fe.1)].
+Proof. exact (@factorize_full_complete md a r c l cof r'). Qed.
+(* the hypotheses hold for the run on (x+1)^7 (square-free part x + 1, bound 6, prime 2, modulus 8) *)
+Example ex_precision_hyp :
+  let a := [:: 1; 7; 21; 35; 35; 21; 7; 1]%ZZ in
+  [/\ canonZ a, Checked = Checked \/ (Z.of_nat (length a) <= two64)%ZZ,
+      factorize_full Checked a (rng_of [::]) = Done (1%ZZ, [:: ([:: 1; 1], 7)]%ZZ, [:: 1%ZZ], rng_of [::]),
+      forall g q, (Resultant.resultant_gcd (cont_pp a).2 (pdiff opsZ (cont_pp a).2)).2 = Done g ->
+                  div_exact (cont_pp a).2 g = Some q -> run_precision_ok Checked q
+    & prec_ok 8 [:: 1; 1]%ZZ].
+Proof. by split; [vm_compute | left | vm_compute | exact: precision_ok_pow7 | exact: prec_ok_x1]. Qed.
+
+(** * Third wave, continued: the coefficient bound is sufficient (Landau-Mignotte), so the precision hypothesis
+    of the [C] theorems above is discharged: the only remaining condition is that the prime found by the
+    search was not wrapped by [as i32] ([prime_not_wrapped q]: [find_prime] returns a pair [(p, p)]; true
+    whenever the first good prime is below 2^31), plus a coefficient vector of at most 2^32 entries. *)
+From RNT.Refine Require Import PolyZFactorW3Mignotte PolyZFactorW3Bound.
+
+(** ** [P] Landau-Mignotte: if [q = u v] in Z[x], [q <> 0], then [|lc(v) u_i| <= C(deg u, i) * sum_j |q_j|]
+    for every [i] (proved over the algebraic numbers: Landau's inequality [M(q) <= ||q||_2] by Mignotte's
+    reflection argument, and the bound of the coefficients of [prod (x - a_i)] by binomials times
+    [prod max(1, |a_i|)]; Refine/PolyZFactorW3Landau.v, PolyZFactorW3Mignotte.v). *)
+Theorem landau_mignotte_bound (q u v : {poly Z}) : q = u * v -> q != 0 -> forall i,
+  Z.le (Z.abs (Z.mul (lead_coef v) u`_i)) (Z.mul (Z.of_nat 'C((size u).-1, i)) (\sum_(j < size q) Z.abs q`_j)).
+Proof. exact (@mignotte_Z q u v). Qed.
+
+(** ** [P] coefficient_bound_sufficient: any modulus above the bound computed by the code (see
+    [coefficient_bound_no_overflow]) satisfies [prec_ok] *)
+Theorem coefficient_bound_sufficient (q : seq Z) (pe : Z) : canonZ q -> (1 < size q)%N ->
+  (abs_sum q (Z.abs (lead opsZ q)) * 2 ^ (Z.of_nat (length q) - 2) * 2 * Z.abs (lead opsZ q) < pe)%ZZ ->
+  prec_ok pe q.
+Proof. exact (@prec_ok_of_bound q pe). Qed.
+
+(** ** [C] squarefree_factors_irreducible_flag: [get_factors_of_squarefree] returns irreducible polynomials
+    whenever the prime search returned a prime equal to its machine-word copy.
+    Full statement (not proved; it is false of the faithful model for inputs whose first good prime exceeds
+    2^31, which no real input reaches): the same for [find_prime ... = Done (p, pu)] with any [pu]. *)
+Theorem squarefree_factors_irreducible_flag md (q : seq Z) r fs r' p :
+  canonZ q -> (1 < size q)%N -> (Z.of_nat (length q) <= 4294967296)%ZZ ->
+  find_prime (prime_fuel q) q 2 = Done (p, p) ->
+  get_factors_of_squarefree md q r = Done (fs, r') ->
+  forall f, f \in fs -> irreducible_poly (Poly f).
+Proof. exact (@get_factors_irreducible_bound md q r fs r' p). Qed.
+
+(** ** [C] factorize_correct_flag: for every completed run on a canonical input of at most 2^32 coefficients
+    for which the prime found for the square-free part was not wrapped: the final cofactor is 1,
+    [a = c * prod f_i^e_i], and every [f_i] is irreducible over Q. Together with the unconditional
+    [content_is_signed_content], [factors_primitive_positive], [multiplicities_positive],
+    [multiplicities_exact_input], [factors_pairwise_distinct] this is the whole property C07 for such runs. *)
+Theorem factorize_correct_flag md (a : seq Z) r c l cof r' : canonZ a ->
+  (Z.of_nat (length a) <= 4294967296)%ZZ ->
+  factorize_full md a r = Done (c, l, cof, r') ->
+  (forall g q, (Resultant.resultant_gcd (cont_pp a).2 (pdiff opsZ (cont_pp a).2)).2 = Done g ->
+               div_exact (cont_pp a).2 g = Some q -> prime_not_wrapped q) ->
+  [/\ cof = [:: 1%ZZ], Poly a = c *: fprod l
+    & forall fe, fe \in l -> irreducible_poly (Poly fe.1)].
+Proof. exact (@factorize_full_irreducible_bound md a r c l cof r'). Qed.
+(* the condition holds for the runs on (x+1)^7 (prime 2), -6(x^2+x+1)(2x^2+1) (prime 5), x^4-10x^2+1 (prime 5) *)
+Example ex_prime_not_wrapped :
+  [/\ forall g q, (Resultant.resultant_gcd (cont_pp [:: 1; 7; 21; 35; 35; 21; 7; 1]%ZZ).2
+                     (pdiff opsZ (cont_pp [:: 1; 7; 21; 35; 35; 21; 7; 1]%ZZ).2)).2 = Done g ->
+                  div_exact (cont_pp [:: 1; 7; 21; 35; 35; 21; 7; 1]%ZZ).2 g = Some q -> prime_not_wrapped q,
+      forall g q, (Resultant.resultant_gcd (cont_pp [:: -6; -6; -18; -12; -12]%ZZ).2
+                     (pdiff opsZ (cont_pp [:: -6; -6; -18; -12; -12]%ZZ).2)).2 = Done g ->
+                  div_exact (cont_pp [:: -6; -6; -18; -12; -12]%ZZ).2 g = Some q -> prime_not_wrapped q
+    & forall g q, (Resultant.resultant_gcd (cont_pp [:: 1; 0; -10; 0; 1]%ZZ).2
+                     (pdiff opsZ (cont_pp [:: 1; 0; -10; 0; 1]%ZZ).2)).2 = Done g ->
+                  div_exact (cont_pp [:: 1; 0; -10; 0; 1]%ZZ).2 g = Some q -> prime_not_wrapped q].
+Proof. by split; [exact: prime_not_wrapped_pow7 | exact: prime_not_wrapped_content | exact: prime_not_wrapped_sd]. Qed.
